@@ -96,6 +96,15 @@ class Leaf:
     def sym_bytes(self, name, n):
         return [self.ctx.byte('%s%d' % (name, i)) for i in range(n)]
 
+    def restrict(self, bs, alphabet):
+        """every byte of `bs` ranges over the given byte values only (narrows the input space without forking)"""
+        from .ctx import mask_constraint
+        m = 0
+        for x in alphabet:
+            m |= 1 << x
+        for b in bs:
+            self.ctx.add(mask_constraint(b, m))
+
     def assume(self, cond):
         if not self.ctx.decide(cond):
             raise Discard()
